@@ -305,7 +305,7 @@ def mt_src(prog):
     # instantiate
     o.append("                    \"instantiate\" => {\n                        let code = codes.last().unwrap();\n"
              "                        let (label, admin, salt) = (s(\"label\"), s(\"admin\"), s(\"salt\"));\n"
-             "                        let admin_addr = if admin.is_empty() { None } else { Some(mt::sender(&admin).to_string()) };\n"
+             "                        let admin_addr = if admin.is_empty() { None } else if admin == \"<empty>\" { Some(String::new()) } else { Some(mt::sender(&admin).to_string()) };\n"
              "                        let (pr, docj) = match val {\n")
     for val in (0, 1):
         o.append("                            %d => { %slet mut b = code.instantiate(%s);\n"
